@@ -48,8 +48,10 @@ Print Assumptions C10_command_line.
 
 Theorem C10_bare_m : get_port_map {| ns_serverports := []; ns_mapports := Some bare_m_default; ns_keep := false |} = Ok [(443, 8080)].
 Proof. exact bare_m_map. Qed.
+Print Assumptions C10_bare_m.
 Theorem C10_trailing_comma : forall pm x, port_map_entry pm (x ++ [44]) = port_map_entry pm x.
 Proof. exact comma_ignored. Qed.
+Print Assumptions C10_trailing_comma.
 
 (* the constants of the source, regenerated on every run, are the ones the model uses *)
 Theorem C10_source_constants :
